@@ -81,7 +81,7 @@ def lex(src, keep_comments=False):
             q = i + (1 if c == "b" else 0)
             # char literal or lifetime
             if q + 1 < n and src[q + 1] == "\\":
-                j = q + 2
+                j = q + 3
                 while j < n and src[j] != "'":
                     j += 1
                 j += 1
